@@ -30,11 +30,33 @@
 #include "life_families.hpp"
 
 #if !defined(__SANITIZE_ADDRESS__)
-// count ::operator new calls that happen inside a library call and do not come from track_alloc (information only)
-void* operator new(std::size_t n) { if (life::rt.quiet == 0) ++life::rt.foreign; void* p = malloc(n ? n : 1); if (!p) throw std::bad_alloc(); return p; }
+// Observer of memory obtained OUTSIDE the user's allocator: every form of the global operator new is replaced and counted
+// while a library call is in progress (life::rt.quiet == 0: set by Runner::call around each replayed call and around the
+// digest observation; the harness's own bookkeeping and the adapters' own containers run under life::Quiet).  The count is
+// logged per event (fields gnew / gobs) and judged by spec/TraceLifecycle.tla (clause no-global-allocation-inside-library-call).
+static inline void* life_gnew(std::size_t n) { if (life::rt.quiet == 0) ++life::rt.foreign; void* p = malloc(n ? n : 1); return p; }
+void* operator new(std::size_t n) { void* p = life_gnew(n); if (!p) throw std::bad_alloc(); return p; }
+void* operator new[](std::size_t n) { void* p = life_gnew(n); if (!p) throw std::bad_alloc(); return p; }
+void* operator new(std::size_t n, const std::nothrow_t&) noexcept { return life_gnew(n); }
+void* operator new[](std::size_t n, const std::nothrow_t&) noexcept { return life_gnew(n); }
+static inline void* life_gnew_al(std::size_t n, std::size_t al) { if (life::rt.quiet == 0) ++life::rt.foreign; void* p = nullptr; if (posix_memalign(&p, al < sizeof(void*) ? sizeof(void*) : al, n ? n : 1)) p = nullptr; return p; }
+void* operator new(std::size_t n, std::align_val_t al) { void* p = life_gnew_al(n, (std::size_t)al); if (!p) throw std::bad_alloc(); return p; }
+void* operator new[](std::size_t n, std::align_val_t al) { void* p = life_gnew_al(n, (std::size_t)al); if (!p) throw std::bad_alloc(); return p; }
+void* operator new(std::size_t n, std::align_val_t al, const std::nothrow_t&) noexcept { return life_gnew_al(n, (std::size_t)al); }
+void* operator new[](std::size_t n, std::align_val_t al, const std::nothrow_t&) noexcept { return life_gnew_al(n, (std::size_t)al); }
 void operator delete(void* p) noexcept { free(p); }
+void operator delete[](void* p) noexcept { free(p); }
 void operator delete(void* p, std::size_t) noexcept { free(p); }
+void operator delete[](void* p, std::size_t) noexcept { free(p); }
+void operator delete(void* p, const std::nothrow_t&) noexcept { free(p); }
+void operator delete[](void* p, const std::nothrow_t&) noexcept { free(p); }
+void operator delete(void* p, std::align_val_t) noexcept { free(p); }
+void operator delete[](void* p, std::align_val_t) noexcept { free(p); }
+void operator delete(void* p, std::size_t, std::align_val_t) noexcept { free(p); }
+void operator delete[](void* p, std::size_t, std::align_val_t) noexcept { free(p); }
+static const int LIFE_GNEW_OBSERVED = 1;
 #else
+static const int LIFE_GNEW_OBSERVED = 0;   // AddressSanitizer owns operator new in this build: gnew is logged as 0
 extern "C" const char* __asan_default_options() { return "detect_leaks=0:abort_on_error=0:exitcode=97:allocator_may_return_null=1"; }
 #endif
 
@@ -188,6 +210,7 @@ template<class Ad> struct Runner {
       return false;
     }
     // observation: digest of every live slot (its events belong to the same step)
+    long gobs = 0;
     std::string D = "[";
     for (int sl = 1; sl <= NS; sl++) {
       if (sl > 1) D += ",";
@@ -198,13 +221,14 @@ template<class Ad> struct Runner {
           vt::Ev("Exception").str("fam", Ad::name()).str("k", "Digest").i("i", sl).i("j", 0).str("what", what).raw("env", env_json()).emit();
           return false;
         }
+        gobs += rt.foreign;
         char b[40]; snprintf(b, sizeof b, "\"B:%016llx\"", (unsigned long long)fnv(img));
         D += b;
       } else D += "0";
     }
     D += "]";
     vt::Ev e("Step");
-    e.str("fam", Ad::name()).str("k", k).i("i", i).i("j", j).i("c", c).str("op", s.op).raw("D", D).raw("env", env_json()).i("f", foreign);
+    e.str("fam", Ad::name()).str("k", k).i("i", i).i("j", j).i("c", c).str("op", s.op).raw("D", D).raw("env", env_json()).i("gnew", foreign).i("gobs", gobs);
     if (teardown) e.b("td", true);
     e.emit();
     return true;
